@@ -1218,8 +1218,9 @@ def run_pair(ck, P, n_types, n_values, label_filter=None):
                       {'k': 'known', 'tyA': ta, 'doc': w['doc']},
                       {'k': 'dec', 'side': 'A', 'ty': ta, 'doc': w['doc'], 'strict': False},
                       {'k': 'dec', 'side': 'A', 'ty': ta, 'doc': w['doc'], 'strict': True},
-                      {'k': 'wire', 'side': 'B', 'ty': tb, 'v': w['value']}]
-            index += [('view', i), ('mentions', i), ('known', i), ('decL', i), ('decS', i), ('wire', i)]
+                      {'k': 'wire', 'side': 'B', 'ty': tb, 'v': w['value']},
+                      {'k': 'thmfwd', 'tyA': ta, 'tyB': tb, 'v': w['value']}]
+            index += [('view', i), ('mentions', i), ('known', i), ('decL', i), ('decS', i), ('wire', i), ('thm', i)]
         else:
             cases += [{'k': 'lift', 'tyB': tb, 'v': w['value']},
                       {'k': 'nvr', 'tyA': ta, 'v': w['value']},
@@ -1227,8 +1228,9 @@ def run_pair(ck, P, n_types, n_values, label_filter=None):
                       {'k': 'nvrdoc', 'tyA': ta, 'doc': w['doc']},
                       {'k': 'dec', 'side': 'B', 'ty': tb, 'doc': w['doc'], 'strict': False},
                       {'k': 'dec', 'side': 'B', 'ty': tb, 'doc': w['doc'], 'strict': True},
-                      {'k': 'wire', 'side': 'A', 'ty': ta, 'v': w['value']}]
-            index += [('lift', i), ('nvr', i), ('tight', i), ('nvrdoc', i), ('decL', i), ('decS', i), ('wire', i)]
+                      {'k': 'wire', 'side': 'A', 'ty': ta, 'v': w['value']},
+                      {'k': 'thmbwd', 'tyA': ta, 'tyB': tb, 'v': w['value']}]
+            index += [('lift', i), ('nvr', i), ('tight', i), ('nvrdoc', i), ('decL', i), ('decS', i), ('wire', i), ('thm', i)]
     env_both = {'structs': P.A.env['structs'] + P.B.env['structs'], 'unions': P.A.env['unions'] + P.B.env['unions']}
     ext = values.ext_tables(env_both, [w['value'] for w in work] + [w['doc'] for w in work], P.ts,
                             list(tyA.values()) + list(tyB.values()))
@@ -1238,13 +1240,17 @@ def run_pair(ck, P, n_types, n_values, label_filter=None):
     base = P.case_base()
     ck.case(('pair', json.dumps(P.script, sort_keys=True, default=repr)), nontrivial=True)
     # hypotheses of the theorems on real data: both environments well formed, the edits inside `compatEnv`
-    for name in ('envWF_A', 'envWF_B', 'envWFX_A', 'envWFU_A', 'envWFU_B', 'fieldFlagsWF_A', 'rhoWF', 'compatEnv'):
+    for name in ENV_HYPS:
         if rep.get(name):
             ck.agree('compat.hyp')
         else:
             ck.disagree('compat.hyp', {'hypothesis': name, 'edits': P.script, 'specsA': P.A.specs, 'specsB': P.B.specs},
                         'compatible edits applied by the generator', {'value': rep.get(name), 'badPairs': rep.get('badPairs')})
-    model = {}
+    # environment-level domain conditions of the wire-form theorems (C04's round trip for the sender).  `envRT` excludes a
+    # genuine defect (C04: explicit default on a field whose validator has an implicit one), so it is counted, not asserted.
+    for name in ('envRT_A', 'envRT_B', 'dfltsRefl_A', 'dfltsRefl_B'):
+        ck.hist('compat.theorem.env.' + name, bool(rep.get(name)))
+    model = {('env', None): {k: rep.get(k) for k in ENV_HYPS + ('envRT_A', 'envRT_B', 'dfltsRefl_A', 'dfltsRefl_B')}}
     for (what, i), r in zip(index, rep['results']):
         model[(what, i)] = r
         if what == 'sub':
@@ -1259,6 +1265,41 @@ def run_pair(ck, P, n_types, n_values, label_filter=None):
             judge_forward(ck, P, base, i, w, model)
         else:
             judge_backward(ck, P, base, i, w, model)
+
+
+ENV_HYPS = ('envWF_A', 'envWF_B', 'envWFX_A', 'envWFU_A', 'envWFU_B', 'fieldFlagsWF_A', 'rhoWF', 'compatEnv')
+
+
+def theorem_domain(model, i, direction):
+    """Is case i inside the domain of C07.forward_compat (direction 'B->A') / C07.backward_compat ('A->B')?  Every
+    hypothesis of the theorem except ExtLaws (base64 round trip, irreflexive float <; its third clause is dfltsRefl) as the
+    compiled model evaluates it on this pair / type / value.  Returns (inside, reasons-outside)."""
+    env, th = model[('env', None)], model[('thm', i)]
+    if 'protocol_error' in th:
+        return False, ['protocol_error']
+    need_env = ['envWF_A', 'envWF_B', 'envWFX_A', 'envWFU_B', 'compatEnv'] + \
+        (['envRT_B', 'dfltsRefl_B'] if direction == 'B->A' else ['envRT_A', 'dfltsRefl_A'])
+    need_val = ['tySub', 'tyWF_A', 'valid', 'normal', 'valWF'] + (['tyWF_B'] if direction == 'B->A' else ['noVoidToRequired'])
+    out = [k for k in need_env if not env.get(k)] + [k for k in need_val if not th.get(k)]
+    if th.get('ambiguousEmpty'):
+        out.append('ambiguousEmpty')
+    return not out, out
+
+
+def judge_theorem(ck, suite, side, reals, model, i, direction, case):
+    """Inside the theorem's domain: the REAL decoder's result on the REAL encoding against the theorem's right-hand side
+    (`view rho A tA (canon B tB v)` / `lift rho B tB (canon A tA v)`) as evaluated by the compiled model."""
+    inside, why = theorem_domain(model, i, direction)
+    ck.hist(suite + '.domain', 'inside' if inside else 'outside:' + ','.join(why))
+    if not inside:
+        return
+    rhs = model[('thm', i)].get('rhs')
+    for strict, real in sorted(reals.items()):
+        real_t = _tagged(side, real)
+        if rhs is not None and real_t[0] == 'ok' and canon(real_t[1]) == canon(rhs):
+            ck.agree(suite)
+        else:
+            ck.disagree(suite, dict(case, strict=strict), list(real_t), rhs)
 
 
 def _tagged(side, real):
@@ -1287,8 +1328,9 @@ def judge_forward(ck, P, base, i, w, model):
     ck.hist('compat.forward.exercises_edit', hot)
     ck.hist('compat.forward.message_has_unknown', unknown)
     case = dict(base, direction='B->A', typeA=la, typeB=w['lb'], value=v, doc=doc)
+    reals = {}
     for strict in (False, True):
-        real = A.decode(la, doc, strict)
+        real = reals[strict] = A.decode(la, doc, strict)
         ck.case(('fwd', la, strict, json.dumps(v, sort_keys=True)), nontrivial=hot or unknown)
         ck.hist('compat.forward.outcome', '%s/%s' % ('strict' if strict else 'lenient', real[0]))
         # -- correspondence: model decode of the real encoding; model view; model mentionsUnknown / knownDoc
@@ -1348,6 +1390,14 @@ def judge_forward(ck, P, base, i, w, model):
         ck.agree('compat.wire')
     else:
         ck.disagree('compat.wire', case, doc, mw)
+    # the documented ambiguity, model against the independent reading of json_serializer.rst
+    if mw.get('valid'):
+        if bool(mw.get('ambiguousEmpty')) == amb:
+            ck.agree('compat.ambiguous')
+        else:
+            ck.disagree('compat.ambiguous', case, amb, mw.get('ambiguousEmpty'))
+    # C07.forward_compat: lenient decoding under A of the real encoding under B = view rho A tA (canon B tB v)
+    judge_theorem(ck, 'compat.theorem.forward', A, {False: reals[False]}, model, i, 'B->A', case)
     if len(ck.samples) < 5 and hot and unknown:
         ck.sample({'edits': P.script, 'direction': 'B->A', 'type': la, 'message': j, 'A_view': exp})
 
@@ -1365,7 +1415,7 @@ def judge_backward(ck, P, base, i, w, model):
         ck.agree('compat.nvr')
     else:
         ck.disagree('compat.nvr', case, not vtr, mn)
-    # hypotheses of backward_compat_partial on the real encoding: encoder form, no Void-to-required tag
+    # what C07.wire_tight / wire_nvr say, on the REAL encoding: encoder form; nvrDoc = noVoidToRequired of the value
     mt = model[('tight', i)].get('ok')
     if mt is True:
         ck.agree('compat.tight')
@@ -1376,8 +1426,9 @@ def judge_backward(ck, P, base, i, w, model):
         ck.agree('compat.nvrdoc')
     else:
         ck.disagree('compat.nvrdoc', case, not vtr, md)
+    reals = {}
     for strict in (False, True):
-        real = B.decode(lb, doc, strict)
+        real = reals[strict] = B.decode(lb, doc, strict)
         ck.case(('bwd', la, strict, json.dumps(v, sort_keys=True)), nontrivial=v[0] in 'SUld')
         ck.hist('compat.backward.outcome', '%s/%s' % ('strict' if strict else 'lenient', real[0]))
         mo = model_outcome(model[('decS' if strict else 'decL', i)])
@@ -1420,6 +1471,13 @@ def judge_backward(ck, P, base, i, w, model):
         ck.agree('compat.wire')
     else:
         ck.disagree('compat.wire', case, doc, mw)
+    if mw.get('valid'):
+        if bool(mw.get('ambiguousEmpty')) == amb:
+            ck.agree('compat.ambiguous')
+        else:
+            ck.disagree('compat.ambiguous', case, amb, mw.get('ambiguousEmpty'))
+    # C07.backward_compat: decoding under B (both modes) of the real encoding under A = lift rho B tB (canon A tA v)
+    judge_theorem(ck, 'compat.theorem.backward', B, reals, model, i, 'A->B', case)
 
 
 def build_pair(ck, specsA, specsB, renames, hot, script, touched=()):
